@@ -10,7 +10,7 @@ VARIABLES l, hdr, pre, prior, planned, injected, crashed, msgs, retv, created, l
 tvars == <<l, hdr, pre, prior, planned, injected, crashed, msgs, retv, created, logged, nalloc, natural, lamb, lastcap>>
 
 OpKind == hdr.scenario.op.kind
-Where == (IF Has(hdr, "store") /\ hdr.store = "redis" THEN "redis-store/" ELSE "") \o OpKind \o "/" \o (IF crashed # "none" THEN "crash@" \o crashed ELSE IF injected # "none" THEN "fault@" \o injected ELSE "fault-free")
+Where == (IF Has(hdr, "store") /\ hdr.store = "redis" THEN "redis-store/" ELSE "") \o (IF Has(hdr, "pool") THEN "full-worker-pool/" ELSE "") \o OpKind \o "/" \o (IF crashed # "none" THEN "crash@" \o crashed ELSE IF injected # "none" THEN "fault@" \o injected ELSE "fault-free")
 Get(f, k, d) == IF k \in DOMAIN f THEN f[k] ELSE d
 PriorOf(n) == LET R == {i \in 1..Len(prior) : prior[i].node = n} IN IF R = {} THEN 0 ELSE prior[CHOOSE i \in R : TRUE].ds
 
